@@ -7,6 +7,8 @@ from props.fam_l2 import l2_module, l2_dump_module
 def build(tier, seed):
     mods = [l1_loader_module("C02", tier), l2_module("C02", tier), l2_dump_module("C02", tier)]
     mods.append(l3_module("C02", tier))
+    from props.fam_litenum import litenum_module
+    mods.append(litenum_module("C02", tier))
     mn = Module("c02_unwrap").pre('''
 from typing import NewType, Annotated
 from adaptix import Retort, loader, dumper
